@@ -25,6 +25,12 @@ class Timeout(Exception):
 
 
 def _alarm(signum, frame):
+    import os
+    if os.environ.get("C17_DEBUG"):
+        import time
+        with open("/tmp/c17dbg.%d" % os.getpid(), "a") as f:
+            f.write("ALARM at %.2f\n" % time.time())
+            traceback.print_stack(frame, limit=14, file=f)
     raise Timeout()
 
 
@@ -81,13 +87,70 @@ def worker(args):
     except Exception:
         pcsize = 32
 
+    chain_in = []
+
+    def run_chains(batch):
+        """the map an emulation or a block builds is not fresh: the instructions of one specification applied one after the
+        other to the same map (after the last instruction of the previous specification's chain) - pending delay slots,
+        widths and flags recorded by one are seen by the next.  A batch of chains runs in a forked child: expression objects
+        shared process-wide are re-shaped in place by execution, and neither that nor a time-out may reach the other probes;
+        a time-out ends the batch (what was found before it does not depend on it)."""
+        import os
+        r, w = os.pipe()
+        pid = os.fork()
+        if pid == 0:
+            out = []
+            try:
+                os.close(r)
+                for prev, blobs in batch:
+                    m = mapper()
+                    done = []
+                    for n, b in enumerate(([prev] if prev else []) + blobs):
+                        signal.alarm(5)
+                        try:
+                            isa.reset_pending(dis)
+                            i = dis(b)
+                            if i is None:
+                                continue
+                            i.address = E.cst(0x401000 if pcsize >= 24 else 0x1000, pcsize)
+                            i(m)
+                            done.append(bytes(i.bytes).hex())
+                        except Exception as x:
+                            if isinstance(x, Timeout):
+                                raise             # expression growth on an accumulated map is a cost, not a raise
+                            if prev and n == 0:
+                                m = mapper()
+                                continue
+                            out.append(["%s|semantics|%s|%s" % (name, site(x), type(x).__name__), b.hex(), list(done), repr(x)[:160]])
+                            m = mapper()
+                            done = []
+                        finally:
+                            signal.alarm(0)
+            except Timeout:
+                pass
+            finally:
+                try:
+                    with os.fdopen(w, "w") as f:
+                        json.dump(out, f)
+                finally:
+                    os._exit(0)
+        os.close(w)
+        with os.fdopen(r) as f:
+            data = f.read()
+        os.waitpid(pid, 0)
+        for key, bb, done, err in (json.loads(data) if data else []):
+            if key not in res["finds"]:
+                res["finds"][key] = {"isa": name, "mode": k, "stage": "semantics", "bytes": bb, "history": [],
+                                     "executed_before_on_the_same_map": done, "error": err}
+
     def finding(stage, exc, b, extra=None):
         key = "%s|%s|%s|%s" % (name, stage, site(exc) if isinstance(exc, BaseException) else exc, type(exc).__name__ if isinstance(exc, BaseException) else "malformed")
         if key not in res["finds"]:
             res["finds"][key] = {"isa": name, "mode": k, "stage": stage, "bytes": b.hex(), "history": [hist[0]] if hist[0] else [],
+                                 "executed_before_on_the_same_map": [],
                                  "error": (repr(exc)[:160] if isinstance(exc, BaseException) else str(extra)[:160])}
 
-    def probe(b, light=False):
+    def probe(b, light=False, chained=False):
         res["n"] += 1
         # the decoder keeps whatever its earlier calls left; sometimes junk that is not an instruction is decoded first
         hist[0] = isa.junk_history(dis, (name, k))
@@ -183,6 +246,8 @@ def worker(args):
                     raise
                 except Exception as x:
                     finding("semantics", x, b)
+                if chained:
+                    chain_in.append(b)
             if len(res["samples"]) < 1:
                 res["samples"].append({"isa": name, "mode": k, "bytes": b.hex(), "mnemonic": i.mnemonic, "length": len(i.bytes)})
         except Timeout:
@@ -191,14 +256,16 @@ def worker(args):
             signal.alarm(0)
 
     with isa.ModeCtx(dis, k):
+        batch = []
         for si, s in enumerate(specs):
+            prev_chain, chain_in[:] = (chain_in[-1] if chain_in else None), []
             # deterministic per-spec stream (independent of VERIF_SEED) + a seed-dependent share
             rng = random.Random(zlib.crc32(s.format.encode()) * 31 + 7)
             rs = random.Random(seed * 65537 + si)
             for fi, fill in enumerate(fills(rng, s, nfill, 24 if len(specs) <= 450 else 2)):
                 head = c04.spec_bytes(rng, s, e, ml, fill=fill)
                 tail = bytes(rng.getrandbits(8) for _ in range(ml + 2)) if fi % 2 == 0 else bytes([0, 0xff] * 8)
-                probe(head + tail)
+                probe(head + tail, chained=fi < 3)
             head = c04.spec_bytes(rs, s, e, ml)
             probe(head + bytes(rs.getrandbits(8) for _ in range(rs.choice([0, 1, ml + 2]))))
             if name in ("x86_x86", "x64_x64"):
@@ -207,6 +274,11 @@ def worker(args):
                 tail = bytes(rng.getrandbits(8) for _ in range(ml))
                 for pf in ([b"\x66", b"\x67", b"\x66\x67", b"\xf3"] + ([b"\x48", b"\x41", b"\x66\x4c"] if name == "x64_x64" else [])):
                     probe(pf + head + tail)
+            if chain_in:
+                batch.append((prev_chain, list(chain_in)))
+            if len(batch) >= 32 or (batch and si == len(specs) - 1):
+                run_chains(batch)
+                batch = []
         for wi, b in enumerate(c04.word_sweep(name, specs, ml, seed, 2)):
             probe(b, light=wi % 16 != 0)
         rr = random.Random(seed * 101 + k)
@@ -276,6 +348,11 @@ def replay(path):
                         v(i)
                 pickle.loads(pickle.dumps(i))
                 i(mapper())
+                if obj.get("executed_before_on_the_same_map"):
+                    m = mapper()
+                    for h in obj["executed_before_on_the_same_map"]:
+                        dis(bytes.fromhex(h))(m)
+                    i(m)
         except Exception as e:
             traceback.print_exc()
             return 1
